@@ -16,8 +16,9 @@ Trace lines are tuples (time, loop_iteration, kind, subject, ...):
   take s j | release s j                                         window slot of scheduler s, by job j
   create j | hcreate j                                           task created for job j / for j.co_shutdown()
   cancel j | hcancel j                                           Task.cancel() on an unfinished task
-  wenter s kind [jobs] | wret s kind [jobs]                      asyncio.wait (kind: main / tidy / sd)
-  sdcall s | sdret s value | sdexc s                             scheduler co_shutdown (wrapper)
+  wenter s kind [jobs] ctx | wret s kind [jobs] ctx | wcancel s kind ctx     asyncio.wait (kind: main / tidy / sd / sdtidy;
+                                                                 ctx: "run" = in the task of co_run, "relay" = in a relayed co_shutdown)
+  sdcall s ctx | sdret s value ctx | sdexc s None ctx            scheduler co_shutdown (wrapper)
   sdb j | sde j | sdc j                                          atomic job co_shutdown begin / end / cancelled
   snap {name: [idle, sched, running, done, res]} | topend | lingered
 """
@@ -111,6 +112,12 @@ def factory(loop, coro, **kw):
     return t
 
 
+def task_ctx():
+    """is the current task the one running a scheduler's co_run ("run") or a relayed co_shutdown ("relay")?"""
+    info = STATE["taskinfo"].get(id(asyncio.current_task()))
+    return "relay" if info and info[0] == "handler" else "run"
+
+
 def job_of_current():
     t = asyncio.current_task()
     info = STATE["taskinfo"].get(id(t))
@@ -151,20 +158,25 @@ def names_of(fs):
 async def vwait(fs, *, timeout=None, return_when=asyncio.ALL_COMPLETED):
     fs = set(fs)
     kinds = {STATE["taskinfo"].get(id(t), ("?",))[0] for t in fs}
+    try:
+        caller = sys._getframe(1).f_code.co_name
+    except Exception:                                       # noqa
+        caller = ""
     if return_when == asyncio.FIRST_COMPLETED:
         kind = "main"
     elif kinds == {"handler"}:
-        kind = "sd" if timeout is not None or CUR_PHASE.get() == "sd" else "sdtidy"
+        kind = "sdtidy" if caller == "_tidy_tasks" else "sd"
     else:
         kind = "tidy"
     s = CUR.get()
-    emit("wenter", s, kind, names_of(fs))
+    ctx = task_ctx()
+    emit("wenter", s, kind, names_of(fs), ctx)
     try:
         d, p = await _orig_wait(fs, timeout=timeout, return_when=return_when)
     except asyncio.CancelledError:
-        emit("wcancel", s, kind)
+        emit("wcancel", s, kind, ctx)
         raise
-    emit("wret", s, kind, names_of(d))
+    emit("wret", s, kind, names_of(d), ctx)
     return d, p
 
 CUR_PHASE = contextvars.ContextVar("cur_phase", default=None)
@@ -302,15 +314,15 @@ def mksched(base):
             old, oldp = CUR.get(), CUR_PHASE.get()
             CUR.set(self.name)
             CUR_PHASE.set("sd")
-            emitj(self, "sdcall", self.name)
+            emitj(self, "sdcall", self.name, task_ctx())
             try:
                 r = await super().co_shutdown()
-                emitj(self, "sdret", self.name, r)
+                emitj(self, "sdret", self.name, r, task_ctx())
                 return r
             except GeneratorExit:
                 raise
             except BaseException:                           # noqa
-                emitj(self, "sdexc", self.name)
+                emitj(self, "sdexc", self.name, None, task_ctx())
                 raise
             finally:
                 CUR_PHASE.set(oldp)
